@@ -51,6 +51,8 @@ def run(ctx):
         norm_t = ("param", param_index(fv, normp)) if normp else SF("norm")
         normaliser(ctx, "C16.Z", fv, path.split("::")[0] + "::" + path.split("::")[-1], norm_t, tv, bv)
     exhaustion_rule(ctx)
+    from .c14 import stats_every_record
+    stats_every_record(ctx, "C16.Q")
 
 
 def sniff_rule(ctx, path):
